@@ -2,7 +2,7 @@
 import re
 
 from engine import rule, AnchorLost
-from model import Super, PathSens, fn_of, trace, strace, is_place, site, const_value
+from model import enum_edge, Super, PathSens, fn_of, trace, strace, is_place, site, const_value
 import common
 
 PARSER_CRATES = {"serde_json", "rmp_serde", "rmp", "serde_yaml", "toml", "toml_edit", "unsafe_libyaml"}
@@ -375,8 +375,8 @@ def r09_5(ctx):
                     if s["k"] == "assign" and s["rv"]["k"] == "discr" and "Option<Format>" in s["rv"]["p"]["ty"]:
                         tr = trace(b, {"k": "copy", "p": s["rv"]["p"]})
                         if tr.origin and tr.origin[0] == "call" and tr.origin[2] is dt:
-                            z = [x for v, x in sw["targets"] if v == 0]
-                            if z and b.edge_dominates(sb, 0, z[0], bi):
+                            e = enum_edge(b, sb, 0)
+                            if e and b.edge_dominates(e[0], e[1], e[2], bi):
                                 ok = True
         ctx.ob("message-on-none-arm", ok, site(b, bi), "the error is built only when detection returned None" if ok else "the 'unable to detect' error is not tied to detection returning None")
 
